@@ -113,11 +113,40 @@ def work(item):
                 fails.append({"input": q, "ok": sorted(ok), "ko": sorted(ko), "parcimonious": parc, "observation": "rendered classes differ: %r" % html})
             if html != html2:
                 fails.append({"input": q, "ok": sorted(ok), "ko": sorted(ko), "parcimonious": parc, "observation": "second run differs"})
+            # one long-lived marker per worker process sees every query of its share, in order
+            try:
+                html3 = SHARED_MARKER(t, ok, ko, parcimonious=parc)
+            except Exception as e:  # noqa: BLE001
+                html3 = "raised %r" % (e,)
+            if html3 != html:
+                fails.append({"input": q, "ok": sorted(ok), "ko": sorted(ko), "parcimonious": parc, "signature": "history",
+                              "observation": "a long-lived marker renders %r, a fresh one %r" % (html3, html)})
         if TR.fingerprint(t) != f0 or TR.layout(t) != l0:
             fails.append({"input": q, "observation": "input tree modified"})
             break
         if len(fails) > 3:
             break
+    return n, fails[:3]
+
+
+SHARED_MARKER = HTMLMarker()
+
+
+def history():
+    """queries that differ only in the blanks kept on the root element, one after the other on one marker"""
+    fails = []
+    n = 0
+    marker = HTMLMarker()
+    for base in ("(foo OR bar)", "NOT spam", "f:x", "a", "[1 TO 2]", "a^2", "\"p q\"~2", "x AND y"):
+        for q in (base + " ", base, " " + base, "\n" + base + "\t", base):
+            t = parser.parse(q)
+            for ok, ko in ((set(), set()), ({()}, set()), (set(), {()})):
+                for parc in (True, False):
+                    n += 1
+                    got, want = marker(t, ok, ko, parcimonious=parc), HTMLMarker()(t, ok, ko, parcimonious=parc)
+                    if got != want:
+                        fails.append({"input": q, "ok": sorted(ok), "ko": sorted(ko), "parcimonious": parc, "signature": "history",
+                                      "observation": "after other queries the same marker renders %r, a fresh one %r" % (got, want)})
     return n, fails[:3]
 
 
@@ -136,6 +165,7 @@ def main():
            # layout the tree may or may not keep (compared with the tree's own text), chains of suffixes
            "title :foo", "a :b AND c", " f  :(x y)^2 ", "a^2^3", "a^2 ^3 b", "(a b)^1^2^3 OR c~1^2", "f:(a)^2^3"]
     res = pmap(work, list(enumerate(qs)))
+    res.append(history())
     failures = [f for r in res for f in r[1]]
     rest, hit = classify(failures, p.get("known", []))
     emit({"ok": not rest, "evaluations": sum(r[0] for r in res), "distinct_nontrivial": len(qs),
